@@ -41,6 +41,15 @@ fn run_property(id: &str, rep: &Report) {
             std::process::exit(2)
         },
     }
+    // scale families (sizes around typical capacities) through the property's per-case check
+    for p in ["C01", "C02", "C05", "C07", "C08", "C09", "C11", "C12", "C13", "C14"] {
+        if p == id {
+            vchecks::scale::run_for(rep, p);
+        }
+    }
+    if id == "C13" {
+        c13::run_scale(rep);
+    }
 }
 
 fn replay_property(id: &str, case: &J, rep: &Report) {
